@@ -511,7 +511,7 @@ CSV_CELLS = ["1", "-2", "+5", " 7 ", "1_000", "0", "007", "2.5", "1e3", ".5", "-
 def gen_csv_spec(rng, max_rows=6):
 	ncols = rng.choice([1, 2, 3, 4])
 	nrows = rng.choice([0, 1, 2, 3, max_rows])
-	delimiter = rng.choice([",", ",", ";", "\t", "|"])
+	delimiter = rng.choice([",", ",", ";", "\t", "|", ",", ";", "\t", "|", "\u00a7", "\u00b7", "\u2502", "\\", " ", "\x1f", "~"])
 	has_header = rng.random() < 0.75
 	header_pool = ["a", "b", "Name", "a", "Total $", "", "x y", "1st", "sum", "é", "a,b"]
 	header = [rng.choice(header_pool) for _ in range(ncols)]
@@ -545,7 +545,7 @@ def gen_csv_spec(rng, max_rows=6):
 		grid[0] = grid[0] + ["1"] * (ncols - len(grid[0]))
 	# a record that is a single empty cell is written by csv.writer as '""' (not a blank line) - keep as is
 	return {"op": "csv", "header": header if has_header else None, "grid": grid, "delimiter": delimiter,
-		"has_header": has_header, "ncols": ncols, "via": rng.choice(["fileobj", "fileobj", "path"]), "pattern": pattern, "suffix": rng.choice([".csv", ".csv", ".tsv", ".TAB", ".txt", ".tab", ""])}
+		"has_header": has_header, "ncols": ncols, "via": rng.choice(["fileobj", "fileobj", "path", "fileobj", "path", "tempfile", "spooled", "wrapper"]), "pattern": pattern, "suffix": rng.choice([".csv", ".csv", ".tsv", ".TAB", ".txt", ".tab", ""])}
 
 
 def gen_csv_long(rng):
@@ -597,7 +597,38 @@ def do_csv(spec):
 				os.unlink(path)
 			except OSError:
 				pass
+	via = spec.get("via")
+	if via in ("tempfile", "spooled", "wrapper"):
+		# other kinds of open text file objects: not io.TextIOBase instances, but files all the same
+		if via == "tempfile":
+			f = tempfile.NamedTemporaryFile("w+", encoding="utf-8", newline="", prefix="serifmon-")
+		elif via == "spooled":
+			f = tempfile.SpooledTemporaryFile(max_size=1 << 20, mode="w+", encoding="utf-8", newline="")
+		else:
+			f = _LineSource(io.StringIO(text, newline=""))
+		try:
+			if via != "wrapper":
+				f.write(text)
+				f.seek(0)
+			return call(serif.read_csv, f, delimiter=spec["delimiter"], has_header=spec["has_header"]), text
+		finally:
+			f.close()
 	return call(serif.read_csv, io.StringIO(text, newline=""), delimiter=spec["delimiter"], has_header=spec["has_header"]), text
+
+
+class _LineSource:
+	"""a user's file-like object: it hands out lines when iterated and can be closed - nothing else"""
+	def __init__(self, inner):
+		self._inner = inner
+
+	def __iter__(self):
+		return iter(self._inner)
+
+	def __next__(self):
+		return next(self._inner)
+
+	def close(self):
+		self._inner.close()
 
 
 # ------------------------------------------------------- generic result specs
